@@ -19,7 +19,9 @@ PoolRecs == {[del |-> d, on |-> n, for |-> SetToSeq(f), det |-> x] : d \in DelId
 Families == {fam \in UNION {[P -> PoolRecs] : P \in (SUBSET PoolIds) \ {{}}} : \A a \in DOMAIN fam : fam[a].on \notin ToSet(fam[a].for)}
 
 Ops == {[op |-> "DelegRoundTrip", type |-> t, ds |-> ds] : t \in {"CAPACITY", "LABEL"}, ds \in DelegSets}
-       \cup {[op |-> n, type |-> t] : n \in {"AddDuplicateId", "DetailsOnReference", "MixedType", "DecodeMixedText"}, t \in {"CAPACITY", "LABEL"}}
+       \cup {[op |-> n, type |-> t] : n \in {"DetailsOnReference", "MixedType", "DecodeMixedText"}, t \in {"CAPACITY", "LABEL"}}
+       \* the duplicate arrives in a second call, in the same call, or after other delegations in the same call
+       \cup {[op |-> "AddDuplicateId", type |-> t, how |-> h] : t \in {"CAPACITY", "LABEL"}, h \in {"two_calls", "one_call", "one_call_third"}}
        \cup {[op |-> "PoolsRoundTrip", type |-> t, fam |-> f] : t \in {"CAPACITY", "LABEL"}, f \in Families}
 
 Init == st = "none" /\ lastop = [op |-> "Init"] /\ path = <<>> /\ chg = FALSE
